@@ -5,6 +5,7 @@ import Zrnt.State.C15Driver
 import Zrnt.Fault.Driver
 import Zrnt.Beacon.C02Driver
 import Zrnt.Beacon.BlockDriver
+import Zrnt.Beacon.BlockPiecesDriver
 import Zrnt.Beacon.GenesisDriver
 import Zrnt.Gossip.Driver
 import Zrnt.SSZ.Driver
@@ -20,7 +21,7 @@ def modes : List Mode := [
   Zrnt.State.c15Mode,
   Zrnt.Fault.c18Mode,
   Zrnt.Beacon.c02Mode,
-  Zrnt.Beacon.Block.c01Mode, Zrnt.Beacon.Block.c03Mode, Zrnt.Beacon.Block.blockWhyMode,
+  Zrnt.Beacon.Block.c01Mode, Zrnt.Beacon.Block.c03Mode, Zrnt.Beacon.Block.blockWhyMode, Zrnt.Beacon.BlockPieces.piecesMode,
   Zrnt.Beacon.Genesis.c13Mode,
   Zrnt.Gossip.Driver.c12Mode,
   Zrnt.SSZ.Driver.sszMode,
